@@ -5,6 +5,9 @@ import J5V.Props.C06
 #print axioms J5V.Props.C06.C06_tokenize_fuel_ok
 #print axioms J5V.Props.C06.C06_scalar_no_panic
 #print axioms J5V.Props.C06.C06_oneof_post_no_panic
+#print axioms J5V.Props.C06.C06_linear_tree
+#print axioms J5V.Props.C06.C06_linear
+#print axioms J5V.Props.C06.C06_depth_le_size
 #print axioms J5V.Props.C06.C06_itemsOk_needed
 #print axioms J5V.Props.C06.C06_src_decode_switch_coverage
 #print axioms J5V.Props.C06.C06_src_scalar_kinds_covered
